@@ -106,6 +106,7 @@ type c14World struct {
 	ln       *c14Listener
 	hijacked chan struct{}
 	b        *c14Conn
+	hijackPanic string
 }
 
 type c14Listener struct {
@@ -168,9 +169,16 @@ func (w *c14World) handler(ctx *RequestCtx) {
 	switch string(ctx.Path()) {
 	case "/hijack":
 		ctx.Hijack(func(c net.Conn) {
+			defer close(w.hijacked)
+			defer func() {
+				if e := recover(); e != nil {
+					w.mu.Lock()
+					w.hijackPanic = fmt.Sprint(e)
+					w.mu.Unlock()
+				}
+			}()
 			var b [8]byte
 			c.Read(b[:])
-			close(w.hijacked)
 		})
 	case "/second":
 		if w.b != nil {
@@ -282,7 +290,11 @@ func c14Run(r *vrt.R, cs c14Case) {
 	w.mu.Lock()
 	conns := append([]*c14Conn(nil), w.conns...)
 	unknown := w.unknown
+	hp := w.hijackPanic
 	w.mu.Unlock()
+	if hp != "" {
+		viol("hijacked-connection-unusable-in-hijack-handler", "reading from the hijacked connection inside the HijackHandler panicked: "+hp)
+	}
 	if unknown > 0 {
 		r.ToolError("ConnState callback for a connection the harness cannot identify: %s", cs.Text)
 	}
